@@ -28,6 +28,7 @@ type iosDev struct {
 	ACLs    map[string][]iosEntry
 	AOrder  []string
 	Routes  []string // text after "ip route "
+	Routes6 []string // text after "ipv6 route "
 }
 
 func newDev() *iosDev { return &iosDev{ACLs: map[string][]iosEntry{}} }
@@ -44,6 +45,7 @@ func (d *iosDev) clone() *iosDev {
 	}
 	c.AOrder = append([]string{}, d.AOrder...)
 	c.Routes = append([]string{}, d.Routes...)
+	c.Routes6 = append([]string{}, d.Routes6...)
 	return c
 }
 
@@ -94,6 +96,9 @@ func (d *iosDev) print() string {
 	}
 	for _, r := range d.Routes {
 		fmt.Fprintf(&sb, "ip route %s\n", r)
+	}
+	for _, r := range d.Routes6 {
+		fmt.Fprintf(&sb, "ipv6 route %s\n", r)
 	}
 	return sb.String()
 }
@@ -282,6 +287,20 @@ func (e *executor) exec1(cmd string) error {
 		e.mode = "intf:" + n
 		return nil
 	}
+	if r, ok := strings.CutPrefix(cmd, "ipv6 route "); ok {
+		if contains(d.Routes6, r) {
+			return fmt.Errorf("route exists: %s", r)
+		}
+		d.Routes6 = append(d.Routes6, r)
+		return nil
+	}
+	if r, ok := strings.CutPrefix(cmd, "no ipv6 route "); ok {
+		if !contains(d.Routes6, r) {
+			return fmt.Errorf("route does not exist: %s", r)
+		}
+		d.Routes6 = remove(d.Routes6, r)
+		return nil
+	}
 	if r, ok := strings.CutPrefix(cmd, "ip route "); ok {
 		if contains(d.Routes, r) {
 			return fmt.Errorf("route exists: %s", r)
@@ -342,7 +361,7 @@ func routeVRF(r string) string {
 }
 
 // managedView: what the target specifies: per interface of the target its in/out filters (block canonical), routes of the target's VRFs.
-func (d *iosDev) managedView(intfs []string, vrfs map[string]bool, withRoutes bool) string {
+func (d *iosDev) managedView(intfs []string, vrfs map[string]bool, withRoutes bool, vrfs6 map[string]bool) string {
 	var sb strings.Builder
 	for _, n := range intfs {
 		i := d.intf(n)
@@ -370,6 +389,16 @@ func (d *iosDev) managedView(intfs []string, vrfs map[string]bool, withRoutes bo
 		}
 		sort.Strings(rs)
 		sb.WriteString("[routes]\n " + strings.Join(rs, "\n ") + "\n")
+	}
+	if len(vrfs6) > 0 {
+		var rs []string
+		for _, r := range d.Routes6 {
+			if vrfs6[routeVRF(r)] {
+				rs = append(rs, r)
+			}
+		}
+		sort.Strings(rs)
+		sb.WriteString("[ipv6 routes]\n " + strings.Join(rs, "\n ") + "\n")
 	}
 	return sb.String()
 }
